@@ -327,6 +327,8 @@ class Profile:
         self.ifexp_call_in_else = False
         self.global_writes = True
         self.max_stmts = 5
+        self.fn_names = None            # pool of function names (identifier adversary of C05)
+        self.name_strings = None        # device-name strings to use in named batch accesses
         self.max_depth = 2
         self.__dict__.update(kw)
 
@@ -373,7 +375,7 @@ class Gen:
                 pass
             return ("read", "RKlb", form, [("num", signed_crc(prefab)), ("num", LT(lt)), ("num", BM(bm))])
         if k == 6:
-            (pl, prefab), bm, nm = r.choice(PLURALS), r.choice(BATCH), r.choice(NAMES)
+            (pl, prefab), bm, nm = r.choice(PLURALS), r.choice(BATCH), r.choice(self.pf.name_strings or NAMES)
             lt = r.choice(plural_logic(pl))
             return ("read", "RKlbn", f'{pl}["{nm}"].{lt}.{bm}',
                     [("num", signed_crc(prefab)), ("num", signed_crc(nm)), ("num", LT(lt)), ("num", BM(bm))])
@@ -527,7 +529,7 @@ class Gen:
             lt = r.choice(plural_logic(pl))
             return ("effect", "EKsb", f"{pl}.{lt} = {{2}}", [("num", signed_crc(prefab)), ("num", LT(lt)), e])
         if k == 7:
-            (pl, prefab), nm = r.choice(PLURALS), r.choice(NAMES)
+            (pl, prefab), nm = r.choice(PLURALS), r.choice(self.pf.name_strings or NAMES)
             lt = r.choice(plural_logic(pl))
             return ("effect", "EKsbn", f'{pl}["{nm}"].{lt} = {{3}}',
                     [("num", signed_crc(prefab)), ("num", signed_crc(nm)), ("num", LT(lt)), e])
@@ -674,7 +676,13 @@ class Gen:
     # ------------------------------------------------------------ functions / program
     def function(self, idx, callable_):
         r = self.r
-        f = Fn(f"f{idx}" if r.random() < 0.7 else f"fn_{idx}", r.randint(0, 3))
+        if self.pf.fn_names:
+            used = {g.name for g in self.P.funcs}
+            cands = [n for n in self.pf.fn_names if n not in used]
+            nm = r.choice(cands) if cands else f"f{idx}"
+        else:
+            nm = f"f{idx}" if r.random() < 0.7 else f"fn_{idx}"
+        f = Fn(nm, r.randint(0, 3))
         gread = list(self.P.globals_initial)
         sc = {"fn": f, "readable": list(f.locals) + gread, "writable": list(f.locals), "frozen": set(gread),
               "callable": callable_}
